@@ -197,7 +197,7 @@ func c30AimAtBoundaries(rt *rapid.T, b *c30Boundary, ends []int, shifter, other 
 		case 0, 1:
 			add(&sStmts, shifter.pointDelete(key(endA)))
 		case 2:
-			add(&sStmts, shifter.pointUpdate(key(endA), b.padCol, strings.Repeat("m", b.padLen/2+rapid.IntRange(0, b.padLen).Draw(rt, lb+".resize"))))
+			add(&sStmts, shifter.pointUpdate(key(endA), b.padCol, strings.Repeat("m", b.padLen/2+rapid.IntRange(0, 590-b.padLen/2).Draw(rt, lb+".resize"))))
 		default:
 			add(&sStmts, shifter.pointInsert(newRow(endA+1, shifter, lb+".ins")))
 		}
